@@ -86,3 +86,22 @@ Q(id='C17.compare_pair', props=['C17'], cls='P', harness='c17_compare_pair.c', e
   assumptions=[A_NOFAIL, 'row widths 1..1000 (KV_MAXW); counters below 2^60',
                'premise of C17 instantiated by a ghost assume between loops 2 and 3 of compare_pair: each row has the same number of residues in both alignments'])
 PROPS['C17'] = dict(level='other', level_text='x', level_note='x', technique='x')
+Q(id='C17.msa_compare.bound', props=['C17'], cls='P', harness='c17_msa_compare.c', entry='h_c17_bound', defs=['-DKV_STUB_CMP_CALLEES', '-DKV_N=3'],
+  mode='dfcc', replace=['compare_pair'], loops_files=['msa_cmp.loops'], unwind=130, timeout=900, replayable=False,
+  funcs=['kalign_msa_compare'],
+  trusted=[TRUST_MSG, 'compare_pair replaced by its contract (proved in C17.compare_pair)',
+           'finalise_alignment / kalign_check_msa / kalign_sort_msa stubbed as no-ops in this query (alignments already FINAL; row matching by name is checked in C17.exact and C17.sort_by_both)'],
+  assumptions=[A_NOFAIL, '3 rows (pair loops unwound), row width symbolic 1..1000',
+               'FLOAT-mono: for integers 0 <= a <= b, b > 0 the IEEE expression (float)(100.0*a/b) lies in [0,100] (checked bit-precisely only on the small shapes of C17.exact)'])
+def _c17_shapes(tier):
+    out = []
+    ws = [(2, 2, 2), (2, 3, 3), (2, 2, 3), (3, 2, 2)] if tier == 'quick' else [(2, 2, 2), (2, 3, 3), (2, 2, 3), (2, 3, 4), (2, 4, 4), (3, 2, 2), (3, 3, 3), (3, 2, 3)]
+    for n, wr, wt in ws:
+        out.append(dict(name='n%d_wr%d_wt%d' % (n, wr, wt), defs=dict(KV_N=n, KV_WR=wr, KV_WT=wt)))
+    return out
+Q(id='C17.exact', props=['C17'], cls='B', harness='c17_msa_compare.c', entry='h_c17_exact', shapes=_c17_shapes,
+  mode='wrap', unwind=12, timeout=1200, funcs=['kalign_msa_compare', 'compare_pair', 'kalign_check_msa', 'kalign_sort_msa', 'sort_by_both', 'sort_by_name', 'sort_by_chksum', 'GCGchecksum'],
+  srcs=['lib/src/msa_check.c', 'lib/src/msa_op.c', 'lib/src/msa_alloc.c', 'lib/src/alphabet.c'],
+  native_srcs=['lib/src/tldevel.c', 'lib/src/msa_check.c', 'lib/src/msa_op.c', 'lib/src/msa_alloc.c', 'lib/src/alphabet.c'],
+  trusted=[TRUST_MSG, 'qsort: insertion-sort stub calling the real comparator (contracts/stubs_qsort.h)', 'isalpha/toupper/strncmp/strnlen: CBMC library models'],
+  assumptions=[A_NOFAIL, A_WRAP, A_FLOAT, 'bounded: 2-3 rows, widths 2-4, symbols {A,c,-,.}; alignments passed in FINAL state (finalise_alignment is covered by C01)'])
